@@ -74,12 +74,13 @@ def clone_case(tmpl, dest):
     return info
 
 
-def launch(info, n, signame, sitefile, timeout=60):
+def launch(info, n, signame, sitefile, timeout=60, second=None):
     """Play the scheduler side of aio_run: start the process, write the pid file."""
     out = open(os.path.join(info["dir"], info["name"] + ".out"), "w")
     err = open(os.path.join(info["dir"], info["name"] + ".err"), "w")
     env = dict(os.environ, PYTEST_CURRENT_TEST="verif-r")
-    p = subprocess.Popen([PY, "-W", "ignore", TRACEKILL, info["script"], str(n), signame, sitefile],
+    extra = [str(second[0]), second[1]] if second else []
+    p = subprocess.Popen([PY, "-W", "ignore", TRACEKILL, info["script"], str(n), signame, sitefile] + extra,
                          stdout=out, stderr=err, cwd="/", env=env, close_fds=True)
     tmp = info["pid"] + ".tmp"
     with open(tmp, "w") as f:
@@ -142,6 +143,56 @@ def run_case(root, tmpl, scenario, signame, n, relaunches=1):
             res["relaunch"].append({"code": code2, "obs": obs2})
             viol += check_relaunch(scenario, prev, code2, obs2, r)
             prev = obs2
+        res["violations"] = viol
+        return res
+    finally:
+        shutil.rmtree(os.path.dirname(dest), ignore_errors=True)
+
+
+def run_escalate(root, tmpl, scenario, signame, n, n2, relaunches=1):
+    """Termination signal at traced line n (inside the body), SIGKILL n2 traced lines later
+    (n2 = 0: no second signal, only the number of lines that follow is measured)."""
+    mode, pre = SCENARIOS[scenario]
+    dest = os.path.join(root, "e-%s-%s-%d-%d-%d" % (scenario, signame, n, n2, os.getpid()), "job")
+    shutil.rmtree(os.path.dirname(dest), ignore_errors=True)
+    os.makedirs(os.path.dirname(dest))
+    try:
+        info = clone_case(tmpl, dest)
+        for m in pre:
+            with open(info[m], "w") as f:
+                f.write("1" if m == "failed" else "")
+        sitefile = os.path.join(os.path.dirname(dest), "site")
+        code = launch(info, n, signame, sitefile, second=(n2 if n2 else 10 ** 9, "KILL"))
+
+        def rd(path):
+            if os.path.exists(path):
+                with open(path) as f:
+                    return f.read().strip()
+            return None
+
+        site, site2, total = rd(sitefile), rd(sitefile + ".2"), rd(sitefile + ".count")
+        obs = observe(info)
+        res = {"scenario": scenario, "sig": "%s+KILL" % signame, "n": n, "n2": n2, "site": site, "site2": site2, "code": code, "obs": obs,
+               "relaunch": [], "after": (int(total) - n) if total else None}
+        ctx = "scenario=%s %s at n=%d (%s), KILL %d lines later (%s) exit=%s obs=%s" % (scenario, signame, n, site, n2, site2, code, obs)
+        viol = []
+        if code == "timeout":
+            viol.append(V("runner-hang", {"scenario": scenario, "escalate": True}, "process did not end: " + ctx))
+        else:
+            if obs["done"] and "done" not in pre:
+                viol.append(V("success-marker-without-completed-body", {"sig": res["sig"]}, ctx))
+            if not obs["lock_free"]:
+                viol.append(V("lock-survives-process", {"sig": res["sig"]}, ctx))
+            # the handler had started to clean up (or ended on its own): the failure marker is there
+            if in_body(site) and not obs["failed"] and (site2 is None or not site2.startswith("run.py:handle_error")):
+                viol.append(V("signal-in-body-markers", {"sig": res["sig"], "failed": False, "done": obs["done"], "second": "none" if site2 is None else "in-cleanup"}, ctx))
+            prev = obs
+            for r in range(relaunches):
+                code2 = launch(info, 0, "KILL", sitefile + ".r%d" % r)
+                obs2 = observe(info)
+                res["relaunch"].append({"code": code2, "obs": obs2})
+                viol += check_relaunch(scenario, prev, code2, obs2, r)
+                prev = obs2
         res["violations"] = viol
         return res
     finally:
@@ -330,6 +381,22 @@ def run_check(tier, base_seed, args):
             futs += [ex.submit(run_concurrent, root, tmpls["gate"], v) for v in ("wait", "term", "kill")]
             for f in futs:
                 results.append(f.result())
+            # escalation (TERM/INT inside the body, SIGKILL some lines later, while the handler runs)
+            body = sorted({(r["scenario"], r["sig"], r["n"]) for r in results
+                           if r.get("sig") in ("TERM", "INT") and r.get("n", 0) > 0 and in_body(r.get("site")) and "done" not in SCENARIOS[r["scenario"]][1]})
+            if tier != "thorough":
+                body = body[base_seed % 3::3]
+            probes = [ex.submit(run_escalate, root, tmpls[SCENARIOS[sc][0]], sc, s, n, 0, 0) for sc, s, n in body]
+            futs2 = []
+            for (sc, s, n), pf in zip(body, probes):
+                pr = pf.result()
+                results.append(pr)
+                after = pr.get("after") or 0
+                step2 = 1 if tier == "thorough" else 3
+                for n2 in range(1 + (base_seed % step2), after + 1, step2):
+                    futs2.append(ex.submit(run_escalate, root, tmpls[SCENARIOS[sc][0]], sc, s, n, n2, 1))
+            for f in futs2:
+                results.append(f.result())
         known = M.load_known()
         lines, new_viol, known_hits = [], [], {}
         for res in results:
@@ -349,9 +416,9 @@ def run_check(tier, base_seed, args):
             if key in reported or len(reported) >= 4:
                 continue
             reported.add(key)
-            path = os.path.join(VERIF, "replays", "C10-%s-%s-%d.json" % (res["scenario"], res["sig"], res["n"]))
+            path = os.path.join(VERIF, "replays", "C10-%s-%s-%d%s.json" % (res["scenario"], res["sig"], res["n"], ("-%d" % res["n2"]) if res.get("n2") is not None else ""))
             with open(path, "w") as f:
-                json.dump({"property": "C10", "engine": "R", "scenario": res["scenario"], "sig": res["sig"], "n": res["n"],
+                json.dump({"property": "C10", "engine": "R", "scenario": res["scenario"], "sig": res["sig"], "n": res["n"], "n2": res.get("n2"),
                            "relaunches": relaunches, "site": res["site"], "violation": v, "result": res}, f, indent=1)
             lines.append("VIOLATION property=C10 replay=%s" % path)
             lines.append("  class=%s sig=%s" % (v["cls"], json.dumps(v["sig"], sort_keys=True)))
@@ -369,6 +436,7 @@ def run_check(tier, base_seed, args):
             "nontrivial": len(results),
         }
         total["counters"]["relaunches"] = sum(len(r["relaunch"]) for r in results)
+        total["counters"]["fault:job-SIGTERM-in-body-then-SIGKILL-at-line"] = sum(1 for r in results if r.get("n2"))
         if not args.no_evidence:
             write_evidence(
                 "C10", tier, base_seed, total, wall, len(new_viol), "fault_enumeration",
@@ -376,7 +444,7 @@ def run_check(tier, base_seed, args):
                           "real signals, real fcntl lock (fasteners), real files", "task body (sim/rtasks.py RTask)"],
                  "stub": ["scheduler side of CommandLineJob.aio_run (Popen + atomic pid file write) is played by the harness", "notification reporter is idle (no server)"]},
                 known_hits={k: v[1] for k, v in known_hits.items()},
-                rule="cases = scenario x signal x n, n enumerating the traced line events (sys.settrace on experimaestro/run.py and the task body) of the scenario's path as the instant of the signal, each followed by relaunches of the same script; "
+                rule="cases = scenario x signal x n (plus, for signals handled inside the body, x n2: SIGKILL n2 traced lines later), n enumerating the traced line events (sys.settrace on experimaestro/run.py and the task body) of the scenario's path as the instant of the signal, each followed by relaunches of the same script; "
                      "distinct = distinct (scenario, signal, crash site, exit status, observed markers/log/lock) tuples; every case kills a real process, so all are non-trivial",
                 extra={"scenarios": counts, "signals": sigs, "stride": stride, "crash_sites": len(sites), "relaunches_per_case": relaunches,
                        "process_runs": len(results) * (1 + relaunches)},
@@ -400,7 +468,10 @@ def replay(rep):
         else:
             mode = SCENARIOS[rep["scenario"]][0]
             tmpl = prepare_template(root, mode)
-            res = run_case(root, tmpl, rep["scenario"], rep["sig"], rep["n"], rep.get("relaunches", 1))
+            if rep.get("n2") is not None:
+                res = run_escalate(root, tmpl, rep["scenario"], rep["sig"].split("+")[0], rep["n"], rep["n2"], 1)
+            else:
+                res = run_case(root, tmpl, rep["scenario"], rep["sig"], rep["n"], rep.get("relaunches", 1))
         print(json.dumps({k: res.get(k) for k in ("scenario", "sig", "n", "site", "code", "obs", "relaunch")}, indent=1))
         if res["site"] != rep["site"]:
             print("REPLAY-MISMATCH: crash site %s != %s" % (res["site"], rep["site"]))
